@@ -220,7 +220,7 @@ var transformations = []string{"crlf", "lf", "indent-none", "indent-tab", "inden
 
 // Comment texts beyond the plain `/* c */` and `// c`: a comment's text is arbitrary up to its first
 // terminator (a slash right after the opener, quotes, nested openers, the other comment's markers).
-var blockBodies = []string{"/*/ x */", "/**/", "/***/", "/* // */", "/*\"*/", "/*`*/", "/* /* */", "/*'*/"}
+var blockBodies = []string{"/*/ x */", "/**/", "/***/", "/* // */", "/*\"*/", "/*`*/", "/* /* */", "/*'*/", "/* a\n   b */", "/*\n*/"}
 var lineBodies = []string{" //", " ///", " // \"", " // `", " // /*", " // */", " //'"}
 
 func bodyTransformations() []string {
